@@ -223,9 +223,19 @@ def addOnce (x : Nat) (l : List Nat) : List Nat := if l.contains x then l else l
 def setAlpha (a : Nat) : PAct ν := fun w =>
   if a != w.c.alpha then ({ w with gstates := addOnce a w.gstates, c := { w.c with alpha := a } }, [.gs a]) else (w, [])
 
-/-- SetFill (writer.go 811-830) -/
-def setFill (p : Paint) : PAct ν := fun w =>
-  if p.eq w.c.fill then (w, []) else
+/-- gradients carry no alpha: `if fill.IsGradient() { w.SetAlpha(1.0) }` (writer.go, head of SetFill/SetStroke) -/
+def gradAlpha (p : Paint) : PAct ν :=
+  match p with
+  | .grad _ => setAlpha 255
+  | _ => say []
+
+/-- SetFill after the gradient-alpha step (writer.go 812-838): a cached colour still sets its alpha -/
+def setFillCore (p : Paint) : PAct ν := fun w =>
+  if p.eq w.c.fill then
+    (match p with
+     | .col c => setAlpha c.a w
+     | _ => (w, []))
+  else
   match p with
   | .col c =>
     let r := setAlpha c.a w
@@ -233,15 +243,25 @@ def setFill (p : Paint) : PAct ν := fun w =>
   | .grad i => ({ w with patterns := addOnce i w.patterns, c := { w.c with fill := p } }, [.cs i])
   | .none => ({ w with c := { w.c with fill := p } }, [])
 
-/-- SetStroke (writer.go 833-852) -/
-def setStroke (p : Paint) : PAct ν := fun w =>
-  if p.eq w.c.stroke then (w, []) else
+/-- SetFill -/
+def setFill (p : Paint) : PAct ν := PAct.seq [gradAlpha p, setFillCore p]
+
+/-- SetStroke after the gradient-alpha step (writer.go 841-867) -/
+def setStrokeCore (p : Paint) : PAct ν := fun w =>
+  if p.eq w.c.stroke then
+    (match p with
+     | .col c => setAlpha c.a w
+     | _ => (w, []))
+  else
   match p with
   | .col c =>
     let r := setAlpha c.a w
     ({ r.1 with c := { r.1.c with stroke := p } }, (if c.r == c.g && c.r == c.b then POp.G c else POp.RG c) :: r.2)
   | .grad i => ({ w with patterns := addOnce i w.patterns, c := { w.c with stroke := p } }, [.CS i])
   | .none => ({ w with c := { w.c with stroke := p } }, [])
+
+/-- SetStroke -/
+def setStroke (p : Paint) : PAct ν := PAct.seq [gradAlpha p, setStrokeCore p]
 
 def setLineWidth (x : ν) : PAct ν := fun w =>
   if !N.beq x w.c.lw then ({ w with c := { w.c with lw := x } }, [.w x]) else (w, [])
@@ -267,7 +287,10 @@ def normPhase : Nat → ν → ν → ν
 
 def pdfDashArr (arr : List ν) : List ν := if arr.length % 2 == 1 then arr ++ arr else arr
 def pdfDashPhase (ph : ν) (arr : List ν) : ν :=
-  if N.lt ph N.zero then normPhase N 4096 ph ((pdfDashArr arr).foldl N.add N.zero) else ph
+  if N.lt ph N.zero then
+    (if N.lt N.zero ((pdfDashArr arr).foldl N.add N.zero) then normPhase N 4096 ph ((pdfDashArr arr).foldl N.add N.zero)
+     else N.zero)                                   -- solid line: no pattern to be in phase with
+  else ph
 
 /-- SetDashes (writer.go 909-939) -/
 def setDashes (ph : ν) (arr : List ν) : PAct ν := fun w =>
@@ -421,10 +444,6 @@ def unpremul (x a : Nat) : Nat := if a == 0 then 0 else ((x * 257 * 65535) / (a 
 def Paint.nrgb : Paint → Nat × Nat × Nat
   | .col c => (unpremul c.r c.a, unpremul c.g c.a, unpremul c.b c.a)
   | _ => (0, 0, 0)
-/-- `r.paint.Color.{R,G,B}`: the cached paint's *premultiplied* bytes -/
-def Paint.premul : Paint → Nat × Nat × Nat
-  | .col c => (c.r, c.g, c.b)
-  | _ => (0, 0, 0)
 
 structure SW (ν : Type) where
   paint : Paint
@@ -451,10 +470,10 @@ def sw0 : SW ν := { paint := .none, lw := N.zero, ml := N.ten, cap := none, joi
 def colorOp (c : Nat × Nat × Nat) : SOp ν :=
   if c.1 == c.2.1 && c.1 == c.2.2 then .setgray c.1 else .setrgbcolor c.1 c.2.1 c.2.2
 
-/-- setPaint (ps.go 90-103): compares the new un-premultiplied colour with the cached premultiplied one -/
+/-- setPaint (ps.go 90-103): emits a colour operator when the un-premultiplied colour changes -/
 def setPaint (p : Paint) : SAct ν := fun w =>
   if p.eq w.paint then (w, []) else
-  ({ w with paint := p }, if p.nrgb != w.paint.premul then [colorOp p.nrgb] else [])
+  ({ w with paint := p }, if p.nrgb != w.paint.nrgb then [colorOp p.nrgb] else [])
 
 def psSetLineWidth (x : ν) : SAct ν := fun w =>
   if !N.beq x w.lw then ({ w with lw := x }, [.setlinewidth x]) else (w, [])
@@ -628,7 +647,7 @@ def svgDraw (d : Draw ν) : List (SElem ν) :=
    else [{ p := .orig d.pid, inStyle := true, items := svgFillItems d ++ (if nat then svgStrokeItems N d else []) }]) ++
   (if hs && !nat then
     [{ p := .outline d.pid, inStyle := false,
-       items := (if d.stroke != .col black then [SItem.fill d.stroke] else []) ++ (if d.evenOdd then [SItem.evenodd] else []) }]
+       items := (if d.stroke != .col black then [SItem.fill d.stroke] else []) }]
    else [])
 
 /-! ### SVG interpreter: presentation attributes with the SVG initial values (SVG 1.1 §11.3/11.4) -/
